@@ -34,8 +34,8 @@ DIRECTIVE_OK = {"+", "-", "*", "&", "<<", ">>", "u-"}
 
 def bound(tier):
     if tier == "thorough":
-        return "trees: <=3 binary ops x <=2 unary (all renderings, all contexts); 4 binary ops x <=1 unary (2 renderings, 2 contexts); operator pairs x 10 boundary literals; literal spellings"
-    return "trees: <=2 binary ops x <=2 unary (7 renderings, 9 contexts); 3 binary ops x <=1 unary (2 renderings, 2 contexts); operator pairs x 10 boundary literals; literal spellings"
+        return "trees: <=3 binary ops x <=2 unary (all renderings, all contexts); 4 binary ops x <=1 unary (2 renderings, 2 contexts); operator pairs x 10 boundary literals; literal spellings; 31 malformed texts x 9 contexts"
+    return "trees: <=2 binary ops x <=2 unary (7 renderings, 9 contexts); 3 binary ops x <=1 unary (2 renderings, 2 contexts); operator pairs x 10 boundary literals; literal spellings; 31 malformed texts x 9 contexts"
 
 
 def cases(tier, seed):
@@ -56,6 +56,7 @@ def cases(tier, seed):
             yield ("pair", op1, op2)
     yield ("unary-boundary",)
     yield ("literals",)
+    yield ("malformed",)
     yield ("after-failure",)
 
 
@@ -347,6 +348,37 @@ def run_literals():
     return {"evals": evals, "nt_count": nt, "outcome": "literals-ok" if not viol else "LITERALS-VIOLATION", "violations": viol[:40]}
 
 
+# texts that are not ONE well-formed expression: they may be rejected, or (leading zeros) mean the decimal number - never
+# silently evaluate to something else, in any context
+MALFORMED = [("010", 10), ("00", 0), ("007", 7), ("0x", None), ("0b", None), ("0b12", None), ("0b2", None), ("0xfg", None), ("0xg", None),
+             ("1 2", None), ("5 5", None), ("1 2 +", None), ("1 )", None), ("( 1", None), ("1 +", None), ("+", None), ("* 2", None),
+             ("1 + * 2", None), ("2 (3)", None), ("(1) (2)", None), ("1,2", None), ("3 q1", None), ("0x10 0x20", None), ("12abc", None),
+             ("1_000", None), ("1.5", None), ("", None), ("()", None), ("~", None), ("1 ~", None), ("1 ~ 2", None)]
+
+
+def run_malformed():
+    viol = []
+    evals = 0
+    for text, allowed in MALFORMED:
+        for name in FULL:
+            fn, lexer, proj, applicable = CONTEXTS[name]
+            if name in ("macro", "for", "if") and "," in text:
+                continue  # a comma separates arguments / bounds there
+            evals += 1
+            try:
+                got = fn(text)
+            except BaseException as e:  # noqa: BLE001
+                if isinstance(e, (KeyboardInterrupt, SystemExit, impl.Timeout)):
+                    raise
+                continue
+            if allowed is not None and applicable(allowed) and got == proj(allowed):
+                continue
+            viol.append({"key": f"expr:{lexer}-context:malformed-text-evaluated:{name}",
+                         "msg": f"`{text}` is not a well-formed expression" + (f" (or means {allowed})" if allowed is not None else "") +
+                                f" but context {name} evaluated it to {fmt(got)}"})
+    return {"evals": evals, "nt_count": evals, "outcome": "malformed-ok" if not viol else "MALFORMED-EVALUATED", "violations": viol[:40]}
+
+
 def run_after_failure():
     """Evaluations that end in an error (comparison operators, unknown operators, undefined names, unbalanced parentheses) must
     leave nothing behind: the same list of expressions is checked after each kind of failed evaluation."""
@@ -381,6 +413,8 @@ def run_after_failure():
 def run_case(case):
     if case[0] == "after-failure":
         return run_after_failure()
+    if case[0] == "malformed":
+        return run_malformed()
     if case[0] == "tree":
         return run_trees(*case[1:])
     if case[0] == "pair":
